@@ -657,7 +657,7 @@ pub fn main(tier: Tier) -> ! {
     run.family("F-path-effect", st.json());
     run.add(st.c);
 
-    let maxd = if run.quick() { 3 } else { 5 };
+    let maxd = if run.quick() { 4 } else { 6 };
     for d in 1..=maxd {
         if !run.time_left() {
             run.bound_capped(format!("F-bind: depth {d} not started (wall budget)"));
@@ -669,7 +669,7 @@ pub fn main(tier: Tier) -> ! {
         run.add(st.c);
     }
 
-    let n = if run.quick() { 3 } else { 5 };
+    let n = if run.quick() { 4 } else { 5 };
     let st = fam_small(&run, "F-small-control", &control_alphabet(), n, &inputs[..5], &stream);
     run.family("F-small-control", st.json());
     run.add(st.c);
